@@ -134,7 +134,8 @@ def parse_callee(s: str) -> Callee:
             inner = rest[j + 1 : e]
             if inner.startswith("impl "):
                 # core::slice::<impl [T]>::get  -> pseudo segment
-                segtxt.append("::<" + inner + ">")
+                t = inner[5:].strip()
+                segtxt.append("::" + ("[T]" if t.startswith("[") else _type_head(t)))
             else:
                 targs.extend(split_top(inner))
             i = e + 1
@@ -182,6 +183,7 @@ class Executor:
         self.int_mode = int_mode
         self.solver = z3.Solver()
         self.solver.set("timeout", timeout_ms)
+        self.timeout_ms = timeout_ms
         self.max_steps = max_steps
         self.max_paths = max_paths
         self.stubs = stubs or {}
@@ -216,12 +218,24 @@ class Executor:
             return "sat"
         t = time.time()
         self.queries += 1
-        self.solver.push()
         try:
-            self.solver.add(*simp)
-            r = self.solver.check()
-        finally:
-            self.solver.pop()
+            self.solver.push()
+            try:
+                self.solver.add(*simp)
+                r = self.solver.check()
+            finally:
+                self.solver.pop()
+        except z3.Z3Exception:
+            # e.g. "reached max unfolding" of the sequence solver: retry once on a fresh solver, else unknown
+            self.solver = z3.Solver()
+            self.solver.set("timeout", self.timeout_ms)
+            try:
+                s2 = z3.Solver()
+                s2.set("timeout", self.timeout_ms)
+                s2.add(*simp)
+                r = s2.check()
+            except z3.Z3Exception:
+                r = z3.unknown
         self.solver_s += time.time() - t
         if r == z3.sat:
             return "sat"
@@ -286,14 +300,17 @@ class Executor:
         return z3.And(e >= lo, e <= hi)
 
     def wrap_int(self, e, bits, signed):
-        lo, _ = self.range_of(bits, signed)
+        lo, hi = self.range_of(bits, signed)
         m = 1 << bits
-        return ((e - lo) % m) + lo
+        return z3.If(z3.And(e >= lo, e <= hi), e, ((e - lo) % m) + lo)
 
     def to_int_expr(self, v: BV):
         """Mathematical value of a machine integer as z3 Int."""
         if z3.is_int(v.e):
             return v.e
+        e = z3.simplify(v.e)
+        if z3.is_bv_value(e):
+            return z3.IntVal(e.as_signed_long() if v.signed else e.as_long())
         return z3.BV2Int(v.e, v.signed)
 
     def binop(self, op: str, a: V, b: V) -> V:
@@ -453,8 +470,11 @@ class Executor:
     def resolve(self, st: State, fr: Frame, place: Place) -> Tuple[object, Tuple]:
         cell = ("L", fr.fid, place.local)
         proj: Tuple = ()
+        prev_wrapper = False
         for el in place.proj:
             k = el[0]
+            if k != "field":
+                prev_wrapper = False
             if k == "deref":
                 v = self.read(st, cell, proj)
                 if isinstance(v, Ref):
@@ -467,6 +487,10 @@ class Executor:
                 if proj and proj[-1][0] == "boxptr":
                     continue
                 ty = el[2]
+                # transparent wrappers (MaybeUninit / ManuallyDrop / MaybeDangling): `.N` goes to the payload
+                if prev_wrapper or ty.startswith(_WRAPPERS):
+                    prev_wrapper = ty.startswith(_WRAPPERS)
+                    continue
                 if ty.startswith(("std::ptr::Unique<", "Unique<", "core::ptr::Unique<")):
                     v = self.read(st, cell, proj)
                     if isinstance(v, BoxV):
@@ -686,7 +710,7 @@ class Executor:
         if m:
             bits, signed = INT_TYPES[m.group(2)]
             return self.mk_int(int(m.group(1).replace("_", "")), bits, signed)
-        m = re.match(r"^([iu](?:8|16|32|64|128|size))::(MIN|MAX|BITS)$", c)
+        m = re.match(r"^(?:core::num::<impl )?([iu](?:8|16|32|64|128|size))>?::(MIN|MAX|BITS)$", c)
         if m:
             bits, signed = INT_TYPES[m.group(1)]
             lo, hi = self.range_of(bits, signed)
@@ -739,7 +763,7 @@ class Executor:
         raise Unsupported(f"const {c}")
 
     def str_const(self, st: State, s: str) -> V:
-        return self.alloc(st, Str(z3.StringVal(s)), False)
+        return self.alloc(st, Str(bytes_lit(s.encode("utf-8"))), False)
 
     def eval_const_item(self, st: State, f: Function) -> V:
         Module.materialize(f)
@@ -882,11 +906,8 @@ class Executor:
             return self.mk_int(len(t.elems), 64, False)
         if isinstance(t, SymSeq):
             return BV(t.length, 64, False)
-        if isinstance(t, Bytes):
-            L = z3.Length(t.s)
-            return BV(L if self.int_mode else z3.Int2BV(L, 64), 64, False)
-        if isinstance(t, Str):
-            raise Unsupported("len of str")
+        if isinstance(t, (Bytes, Str)):
+            return BV(z3.Length(t.s), 64, False)  # int-flavoured usize (lengths are assumed < 2^63)
         raise Unsupported(f"len of {type(t).__name__}")
 
     # ------------------------------------------------------------------ running
@@ -1249,6 +1270,10 @@ class Executor:
             return False
         fr.bb = ret_bb
         return True
+
+
+_WRAPPERS = ("std::mem::ManuallyDrop<", "std::mem::MaybeDangling<", "core::mem::ManuallyDrop<", "ManuallyDrop<", "MaybeDangling<",
+             "std::mem::MaybeUninit<", "MaybeUninit<")
 
 
 @dataclass
